@@ -67,3 +67,86 @@ for comp in (True, False):
         witnesses=[{"x": G_[0], "y": G_[1]}],
         note="spec-level lemma (the decoder is the one C14.point is proved against): used by C09's public extended-key round trip",
     ))
+
+# ---- WIF: decode(encode) for every key, network, address type and data suffix; unknown version bytes are refused
+NETS = ["mainnet", "testnet", "regtest"]
+TYPES = ["p2pkh", "p2wpkh", "p2sh-p2wpkh", "p2pk", "multisig", "p2sh", "p2wsh", "p2sh-p2wsh"]
+WIF_BASE = {"mainnet": 0x80, "testnet": 0xEF, "regtest": 0xEF}
+N_ = 0xFFFFFFFFFFFFFFFFFFFFFFFFFFFFFFFEBAAEDCE6AF48A03BBFD25E8CD0364141
+
+
+def _wif(rng):
+    k = rng.choice([1, 255, 256, N_ - 1, rng.randrange(1, N_), rng.randrange(1, 2 ** (8 * rng.randrange(1, 32)))])
+    return {"key": k.to_bytes(32, "big"), "net": rng.choice(NETS), "kind": rng.choice(TYPES),
+            "data": rng.choice([b"", b"\x01", bytes(rng.getrandbits(8) for _ in range(rng.choice([1, 22, 34, 71])))])}
+
+
+for _net in NETS:
+    for _kind in TYPES:
+        _ver = WIF_BASE[_net] + TYPES.index(_kind)
+        register(Theorem(
+            f"C14.wif.roundtrip.{_net}.{_kind}", P, params={"key": "bytes:32", "net": ("enum", [_net]), "kind": ("enum", [_kind]), "data": "bytes"},
+            requires=[f"1 <= int.from_bytes(key, 'big') < {N_}"],
+            body="bits.utils.wif_decode(bits.utils.wif_encode(key, addr_type=kind, network=net, data=data))",
+            cases=[Case("ok", ensures={"fields": f"result == ({bytes([_ver])!r}, key, data)"})],
+            uses=[("C07.roundtrip.check", {"d": f"{bytes([_ver])!r} + key + data"})],
+            modular=["bits.base58.base58encode", "bits.base58.base58decode"],
+            fuc=["bits.utils.wif_encode", "bits.utils.wif_decode", "bits.utils.privkey_int"],
+            options={"native_gen": (lambda n_, k_: (lambda rng: {**_wif(rng), "net": n_, "kind": k_}))(_net, _kind), "nla": False, "feas_ms": 300},
+            witnesses=[{"key": (1).to_bytes(32, "big"), "net": _net, "kind": _kind, "data": b"\x01"},
+                       {"key": (N_ - 1).to_bytes(32, "big"), "net": _net, "kind": _kind, "data": b""}],
+            note="incl. keys with leading zero bytes (the key is a 32-byte string, every value in [1, n-1]) and every data suffix",
+        ))
+register(Theorem(
+    "C14.wif.unknown_version", P, params={"d": "bytes"},
+    requires=["len(d) == 0 or not (0x80 <= d[0] <= 0x87 or 0xEF <= d[0] <= 0xF6)"],
+    body="bits.utils.wif_decode(bits.base58.base58check(d))",
+    cases=[Case("refused", raises=(KeyError, ValueError, AssertionError))],
+    uses=[("C07.roundtrip.check", {"d": "d"})],
+    modular=["bits.base58.base58encode", "bits.base58.base58decode"], fuc=["bits.utils.wif_decode"],
+    witnesses=[{"d": b""}, {"d": b"\x00" + bytes(32)}, {"d": b"\x88" + bytes(32)}, {"d": b"\xf7" + bytes(32)}],
+    note="a checksum-valid Base58Check string whose version byte is not one of the 16 WIF versions is rejected",
+))
+register(Theorem(
+    "C14.wif.bad_key_refused", P, params={"key": "bytes:32", "net": ("enum", NETS), "kind": ("enum", TYPES)},
+    requires=[f"int.from_bytes(key, 'big') == 0 or int.from_bytes(key, 'big') >= {N_}"],
+    body="bits.utils.wif_encode(key, addr_type=kind, network=net)",
+    cases=[Case("refused", raises=(AssertionError,))],
+    fuc=["bits.utils.wif_encode", "bits.utils.privkey_int"],
+    witnesses=[{"key": bytes(32), "net": "mainnet", "kind": "p2pkh"}, {"key": b"\xff" * 32, "net": "testnet", "kind": "p2sh"}],
+))
+
+
+# ---- PEM: bounded stand-in (base64 + ASN.1 + compute_point are outside the symbolic engine's practical reach)
+def _pem_inputs():
+    import random
+    import spec
+    rng = random.Random(14)
+    ks = [1, 2, 255, 256, 2**8 * 7, 2**128 - 1, 2**247, 2**248 - 1, 2**255, N_ - 1, N_ - 2]
+    ks += [rng.randrange(1, 2 ** (8 * z)) for z in range(1, 32)]          # 1..31 leading zero bytes
+    ks += [rng.randrange(1, N_) for _ in range(20)]
+    for k in ks:
+        yield {"key": k.to_bytes(32, "big")}
+    for k in ks[:12]:
+        q = spec.ec.ec_mul(k, spec.ec.G)
+        yield {"key": spec.ec.sec1_encode(q[0], q[1], True)}
+        yield {"key": spec.ec.sec1_encode(q[0], q[1], False)}
+
+
+def _pem_check_src():
+    return ("(lambda dec: (dec[0] == key and spec.ec.sec1_decode(dec[1]) == spec.ec.ec_mul(int.from_bytes(key, 'big'), spec.ec.G)) "
+            "if len(key) == 32 else (len(dec) == 1 and spec.ec.sec1_decode(dec[0]) == spec.ec.sec1_decode(key)))"
+            "(bits.utils.pem_decode_key(bits.utils.pem_encode_key(key)))")
+
+
+register(Theorem(
+    "C14.pem.roundtrip.bounded", P, params={"key": "bytes"},
+    body=_pem_check_src(),
+    cases=[Case("ok", ensures={"same_key": "result is True"})],
+    fuc=["bits.utils.pem_encode_key", "bits.utils.pem_decode_key", "bits.pem.decode_pem", "bits.pem.parse_asn1", "bits.pem.encode_parsed_asn1"],
+    options={"bounded_only": True, "bounded_inputs": _pem_inputs,
+             "bound": "62 private keys (1, 2, 255, 256, n-1, n-2, powers of two, one key for each count 1..31 of leading zero bytes, 20 random) and 24 "
+                      "public keys (compressed and uncompressed): pem_decode_key(pem_encode_key(k)) returns the same private key bytes and the public key "
+                      "of k / the same point.  Interoperability with OpenSSL is NOT checked (no openssl oracle is used by this framework).  BOUNDED, not proved"},
+    witnesses=[],
+))
